@@ -22,13 +22,22 @@ def run(ctx):
     jobs = []
     fams = ["II", "OO", "IO", "LL", "OI", "fs", "IF", "QQ"]
     jid = 0
-    for it in range(ctx.n(60, 1200)):
+    # a fixed grid first: an insert into every kind at the sizes where something is allocated for the first
+    # time (empty container), where a leaf splits, where an interior node and the root split
+    grid = []
+    for gi, (kind, nkeys, sz) in enumerate((k, n, s) for k in ("Bucket", "Set", "BTree", "TreeSet") for n in (0, 1, 2, 4, 8, 16, 64) for s in ((2, 2), (4, 4))):
+        for fn in (fams[gi % len(fams)], "OO" if kind in ("Bucket", "BTree") else "OI"):
+            grid.append((fn, kind, nkeys, sz, "insert"))
+    for it in range(len(grid) + ctx.n(60, 1200)):
         fn = rng.choice(fams)
         kind = rng.choice(["Bucket", "Set", "BTree", "TreeSet", "BTree"])
         nkeys = rng.choice([0, 1, 3, 4, 7, 15, 16, 31, 63, 64])
-        keys = [2 * i for i in range(nkeys)]
         ml, mi = rng.choice([(2, 2), (3, 3), (4, 4), (60, 30)])
-        opname = rng.choice(["insert", "insert", "update", "setstate", "union", "intersection", "difference", "multiunion", "merge", "pickle", "fromBytes"])
+        forced = None
+        if it < len(grid):
+            fn, kind, nkeys, (ml, mi), forced = grid[it]
+        keys = [2 * i for i in range(nkeys)]
+        opname = forced or rng.choice(["insert", "insert", "update", "setstate", "union", "intersection", "difference", "multiunion", "merge", "pickle", "fromBytes"])
         if opname == "insert":
             op = ["insert", rng.choice([1, 2 * nkeys + 1, nkeys | 1])]
         elif opname == "update":
